@@ -216,7 +216,9 @@ def _barrier(case, crys, chem, sl, jn, it, srank, jrank):
             viols.append({'oracle': 'exception', 'key': nk, 'detail': '{}: {}'.format(type(e).__name__, e), 'case': sub})
             continue
         # scale: the derivative is D times a barrier of order max|bE|; never below max|D|
-        scale = max(abs(dDm).max(), abs(Dm).max())
+        # ... nor below the uncorrelated part of D (networks that do not percolate have D = 0 by exact cancellation)
+        D0bare = abs(chain1.from_network(crys, chem, sl, jn, data[0], data[1], data[2], data[3]).D0()).max()
+        scale = max(abs(dDm).max(), abs(Dm).max(), D0bare)
         err = abs(Db - dDm).max()
         if not (np.all(np.isfinite(Db)) and err <= FDTOL * scale):
             if len(viols) < 1:
@@ -294,7 +296,8 @@ def evaluate(case):
             viols.append({'oracle': 'exception', 'key': pre_key + ':elastodiffusion:' + tag, 'detail': '{}: {}'.format(type(e).__name__, e), 'case': sub})
             continue
         Dp = np.array(Dp)
-        scale = max(abs(dref).max(), abs(Dm).max())
+        D0bare = abs(chain1.from_network(crys, chem, sl, jn, data[0], data[1], data[2], data[3]).D0()).max()
+        scale = max(abs(dref).max(), abs(Dm).max(), D0bare)   # (D0bare: D = 0 by exact cancellation on non-percolating networks)
         ncmp += 2
         if abs(np.array(D0) - Dm).max() > 1e-9 * abs(Dm).max() + 1e-13:
             viols.append({'oracle': 'elastodiffusion-D0', 'key': pre_key + ':elastodiffusion:D0:' + tag, 'case': sub,
